@@ -347,7 +347,9 @@ SearchEv ==
          bad == CommonDefects(e) \cup Unchanged(e, pre, post, "C05")
                 \cup SearchDefects(e.q, post, nodesMs, LAMBDA p, x : SideLogged(ids, p, x))
      IN /\ Report("VIOL", e, IF Faulted(e) THEN {} ELSE bad)
-        /\ Report("DRIFT", e, IF post.meta = NoMeta THEN {} ELSE SearchDrift(e.q, post.meta.roots, Live(post), post.nodes))
+        \* (the traversal is re-run by TLC for every recorded query: small histories only, like the phase conformance)
+        /\ Report("DRIFT", e, IF post.meta = NoMeta \/ ~e.q.sides \/ Cardinality(DOMAIN post.nodes) > 80 THEN {}
+                               ELSE SearchDrift(e.q, post.meta.roots, Live(post), post.nodes))
         /\ Bind(e, post)
   /\ l' = l + 1
   /\ UNCHANGED <<committed, caps, ccaps, mapfull>>
